@@ -63,7 +63,7 @@ var c17Tricky = []struct{ text, kind string }{
 
 var c17LineComments = []string{"-- select  from", "-- it's", "--", "-- \"open", "-- /* where", "-- trailing note", "--select", "-- voil\u00e0", "-- \u00c5"}
 
-var c17Idents = []string{"a", "b1", "col_2", "tbl", "x", "users", "_tmp", "selectx", "fromage", "a1b2", "naïve", "voilà", "\u00c5", "@from", ":limit", "@Where"}
+var c17Idents = []string{"a", "b1", "col_2", "tbl", "x", "users", "_tmp", "selectx", "fromage", "a1b2", "naïve", "voilà", "\u00c5", "@from", ":limit", "@Where", "\u017fet", "l\u0131ke", "\u0131n"}
 
 // c17Backslash is the one tricky lexeme with a backslash-escaped quote (feature "backslash-escaped-quote").
 const c17Backslash = "'q\\'select  from'"
